@@ -32,7 +32,7 @@ SCOPE = ('every built-in reward and termination component against an oracle rest
 BOUNDS = {
     'quick': dict(local='shapes 1x1..2x2 (front-cell components also 1x3, 3x1); 33-object alphabet in the cells read (overlap, pickndrop: 8 objects); all poses/actions/held items; next state = real dynamics (move+turn chain, or the full chain for door/pick rewards), and arbitrary states over 8 objects',
                   scanning='getting_closer (manhattan, euclidean), proportional_to_distance: one Exit at every cell of a Floor grid 2x2..3x3; '
-                           'getting_closer_shortest_path: every Floor/Wall background of 2x2, 2x3, 3x2 with the Exit at every cell; reach_exit_memory: '
+                           'getting_closer_shortest_path: every Floor/Wall background of 2x2, 2x3, 3x2 with the Exit at every cell; distance shaping also on triples whose next state has its own target/agent position/layout (1x3, 2x2) and on door-opening dynamics (1x3, 1x4, 2x2); reach_exit_memory: '
                            '2x2 and 1x4 over {Floor, Exit(RED), Exit(BLUE), Beacon(RED), Beacon(BLUE)} with all beacons of one colour',
                   combinators='reduce_sum over 0..4 components, reduce_any/reduce_all over 0..4 components'),
     'thorough': dict(local='shapes 1x1..3x3, 41-object alphabet', scanning='as quick plus 3x3 Floor/Wall backgrounds, 4x4 Floor grids', combinators='0..5 components'),
@@ -57,7 +57,7 @@ def _cell(st, world, y, x):
     return st.grid.objects[int(y)][int(x)]
 
 
-def arbitrary_next(sx, H, W, sigma):
+def arbitrary_next(sx, H, W, sigma, orientations=ORS):
     """an arbitrary state of the same shape (independent symbolic description)"""
     world = World(sx, 'n', H, W, sigma)
     rows = LazyRows(world)
@@ -66,7 +66,7 @@ def arbitrary_next(sx, H, W, sigma):
     Grid.__init__(grid, rows)
     y = sx.int('ny', 0, H - 1)
     x = sx.int('nx', 0, W - 1)
-    o = sx.choice('no', ORS)
+    o = sx.choice('no', orientations)
     _LAZY['nheld'] = (sx, sigma, 'nheld')
     return State(grid, LazyAgent(Position(y, x), o, 'nheld')), world
 
@@ -219,6 +219,55 @@ def mk_distance(kind, H, W, background):
     return h
 
 
+def _dist(kind, p, e, passable, H, W):
+    if kind in ('manhattan', 'proportional-manhattan'):
+        return abs(p[0] - e[0]) + abs(p[1] - e[1])
+    if kind in ('euclidean', 'proportional-euclidean'):
+        return (p[0] - e[0]) ** 2 + (p[1] - e[1]) ** 2  # squared: same order as the euclidean distance
+    return bfs(passable, e, H, W).get(p, math.inf)
+
+
+FWD = FW + [('Door(CLOSED,NONE)', lambda: Door(Door.Status.CLOSED, Color.NONE))]
+
+
+def mk_distance_general(kind, H, W, background, nxt_kind):
+    """distance shaping on triples where the target / the layout may differ between state and next state:
+    nxt_kind='arbitrary' (independent next state) or 'doors' (real full-chain dynamics on a grid with doors)"""
+    def h(sx):
+        arb = nxt_kind == 'arbitrary'
+        # the distance components never read the action or the headings: one heading / two actions on arbitrary triples
+        state, world = lazy_state(sx, H, W, background, held_sigma=[], orientations=ORS[:1] if arb else ORS)
+        ey = int(sx.int('ey', 0, H - 1))
+        ex = int(sx.int('ex', 0, W - 1))
+        world.fixed[(ey, ex)] = Exit
+        a = sx.choice('a', [Action.MOVE_FORWARD, Action.ACTUATE] if arb else ACTIONS)
+        if nxt_kind == 'arbitrary':
+            nxt, nworld = arbitrary_next(sx, H, W, background, orientations=ORS[1:2])
+            fy = int(sx.int('fy', 0, H - 1))
+            fx = int(sx.int('fx', 0, W - 1))
+            nworld.fixed[(fy, fx)] = Exit
+        else:
+            nxt = transition_with_copy(transition(FULL), state, a)
+            nworld, (fy, fx) = None, (ey, ex)
+        P = [sx.real('p0'), sx.real('p1')]
+        if kind == 'shortest_path':
+            got = RF.getting_closer_shortest_path(state, a, nxt, object_type=Exit, reward_closer=P[0], reward_further=P[1])
+        else:
+            df = Position.manhattan_distance if kind == 'manhattan' else Position.euclidean_distance
+            got = RF.getting_closer(state, a, nxt, distance_function=df, object_type=Exit, reward_closer=P[0], reward_further=P[1])
+        p0 = (int(state.agent.position.y), int(state.agent.position.x))
+        p1 = (int(nxt.agent.position.y), int(nxt.agent.position.x))
+        pass0 = [[not blocks_movement(state.grid.objects[y][x]) for x in range(W)] for y in range(H)]
+        pass1 = [[not blocks_movement(nxt.grid.objects[y][x]) for x in range(W)] for y in range(H)]
+        d0 = _dist(kind, p0, (ey, ex), pass0, H, W)
+        d1 = _dist(kind, p1, (fy, fx), pass1, H, W)
+        exp = P[0] if d1 < d0 else P[1] if d1 > d0 else 0.0
+        lab = 'closer' if d1 < d0 else 'further' if d1 > d0 else 'same'
+        sx.cover(lab + ('-agent-unmoved' if p0 == p1 else ''), nontrivial=True)
+        sx.check(got == exp, kind + '-sign-of-distance-change', f'agent {p0}->{p1} target {(ey, ex)}->{(fy, fx)} d {d0}->{d1}: got {got!r} expected {exp!r}')
+    return h
+
+
 MEM = [('Floor', Floor), ('Exit(RED)', lambda: Exit(Color.RED)), ('Exit(BLUE)', lambda: Exit(Color.BLUE)),
        ('Beacon(RED)', lambda: Beacon(Color.RED)), ('Beacon(BLUE)', lambda: Beacon(Color.BLUE))]
 
@@ -366,6 +415,17 @@ def obligations(tier):
             obs.append(Obligation(f'getting-closer-{kind}-{H}x{W}', mk_distance(kind, H, W, F1), dict(kind=kind, H=H, W=W, background='Floor')))
     for (H, W) in ([(2, 2), (2, 3), (3, 2)] if q else [(2, 2), (2, 3), (3, 2), (3, 3)]):
         obs.append(Obligation(f'getting-closer-shortest_path-{H}x{W}', mk_distance('shortest_path', H, W, FW), dict(H=H, W=W, background='every Floor/Wall layout')))
+    # triples in which the target or the layout differs between state and next state
+    for kind in ['manhattan', 'euclidean']:
+        for (H, W) in ([(1, 3), (2, 2)] if q else [(1, 3), (2, 2), (2, 3)]):
+            obs.append(Obligation(f'getting-closer-{kind}-arbitrary-next-{H}x{W}', mk_distance_general(kind, H, W, F1, 'arbitrary'),
+                                  dict(kind=kind, H=H, W=W, next_state='arbitrary: own agent position and own target position')))
+    for (H, W) in ([(1, 3), (3, 1)] if q else [(1, 3), (3, 1), (2, 2), (1, 4)]):
+        obs.append(Obligation(f'getting-closer-shortest_path-arbitrary-next-{H}x{W}', mk_distance_general('shortest_path', H, W, FW, 'arbitrary'),
+                              dict(H=H, W=W, next_state='arbitrary Floor/Wall layout, agent and target position')))
+    for (H, W) in ([(1, 3), (1, 4), (2, 2)] if q else [(1, 3), (1, 4), (2, 2), (2, 3)]):
+        obs.append(Obligation(f'getting-closer-shortest_path-doors-{H}x{W}', mk_distance_general('shortest_path', H, W, FWD, 'doors'),
+                              dict(H=H, W=W, next_state='real full chain on Floor/Wall/Door(CLOSED) layouts (doors opening change the distance while the agent stands still)')))
     for (H, W) in [(2, 2), (1, 4)]:
         obs.append(Obligation(f'reach_exit_memory-{H}x{W}', mk_memory(H, W), dict(H=H, W=W, alphabet=[e[0] for e in MEM])))
     for n in range(0, 5 if q else 6):
